@@ -16,8 +16,8 @@ import CV.Proofs.ChainExample
 
 Not unsafe but relied upon by the sites above: `ChainCoderHeads.compressed : Word::NonZero`
 (type-level `hc ≠ 0`), and `Seek::seek`, which installs heads taken from `Pos::pos` of a coder
-of the same type (so they satisfy the same invariant; `seek` is not part of `Reachable` below,
-the correspondence check covers it).  The verification hook `verif_from_raw` refuses `hc = 0`.
+of the same type (so they satisfy the same invariant; `seek` is a constructor of `Reachable` /
+`ReachableAny` below).  The verification hook `verif_from_raw` refuses `hc = 0`.
 Memory-level behaviour of `Vec` is outside the model (stacks are lists).  Nothing else in
 `chain.rs` is `unsafe`; no unsafe occurrence is left unmodelled.
 
@@ -111,6 +111,10 @@ inductive Reachable (Sym : Type) (W S : Nat) : Nat → Coder → Prop where
   | changePrecision {P q : Nat} {x y : Coder} :
       Reachable Sym W S P x → PrecOk W S q →
       changePrecision ⟨W, S, P, P⟩ q x = .ok y → Reachable Sym W S q y
+  /-- `Seek::seek` to `Pos::pos` of a reachable coder of the same type – whether it succeeds
+      or fails half-way (compressed side already truncated) -/
+  | seek {P : Nat} {x x' : Coder} :
+      Reachable Sym W S P x → Reachable Sym W S P x' → Reachable Sym W S P (seek x (pos x')).1
 
 /-- **Every reachable coder satisfies the invariant** (for any `B`: the invariant does not
     mention it). -/
@@ -142,6 +146,7 @@ theorem reachable_inv {W S P : Nat} {x : Coder} (h : Reachable Sym W S P x) (B :
     rcases changePrecision_spec (c := ⟨W, S, P', P'⟩) ih.1 hq hI with ⟨herr, _⟩ | ⟨y', h', hy, _⟩
     · rw [herr] at hcp; cases hcp
     · rw [h'] at hcp; cases hcp; exact hy
+  | seek _ _ ih ih' => exact ⟨ih.1, seek_inv ih.2 ih'.2⟩
 
 /-- **History-level C20**: on every coder reachable through the API, every further call – with
     any well-formed model of any admissible probability width, any symbol, any admissible new
@@ -156,6 +161,73 @@ theorem reachable_no_fault {W S P : Nat} {x : Coder} (h : Reachable Sym W S P x)
     (∀ f, intoCompressed ⟨W, S, P, B⟩ x ≠ .error (.fault f)) ∧
     (∀ f, intoBinary ⟨W, S, P, B⟩ x ≠ .error (.fault f)) :=
   api_no_fault hc hm (reachable_inv h B).2
+
+/-! ## invalid arguments: arbitrary (ill-formed) models, arbitrary symbols
+
+C20 also covers calls with invalid arguments.  The unsafe sites only need the compressed head to
+be a valid `Word::NonZero` and the compressed stack to consist of `Word`s (`WInv`); that much
+survives every successful call whatever entropy model is supplied. -/
+
+/-- **The `NonZero` head bound survives every `ok` step under an arbitrary model.** -/
+theorem winv_preserved {c : Cfg} (hP : PrecOk c.W c.S c.P) (hBW : c.B ≤ c.W) (m : Model Sym)
+    {x : Coder} (hx : WInv c x) :
+    (∀ s y, decode c m x = .ok (s, y) → WInv c y) ∧
+    (∀ s y, encode c m s x = .ok y → WInv c y) ∧
+    (∀ q y, changePrecision c q x = .ok y → WInv (withP c q) y) ∧
+    (∀ x', WInv c x' → WInv c (seek x (pos x')).1) :=
+  ⟨fun _ _ h => decode_winv hP hx h, fun _ _ h => encode_winv hP hBW hx h,
+   fun _ _ h => changePrecision_winv hx h, fun _ hx' => seek_winv hx hx'⟩
+
+/-- Everything the public API can produce when the caller may pass **any** entropy model
+    (`B ≤ W` is the trait bound `Probability: Into<Word>`, enforced by the compiler) and may
+    `seek` to any position obtained from `pos` of such a coder of the same type. -/
+inductive ReachableAny (Sym : Type) (W S : Nat) : Nat → Coder → Prop where
+  | fromBinary {P : Nat} {ws : List Nat} {x : Coder} :
+      PrecOk W S P → Words W ws → fromBinary ⟨W, S, P, P⟩ ws = some x → ReachableAny Sym W S P x
+  | fromCompressed {P : Nat} {ws : List Nat} {x : Coder} :
+      PrecOk W S P → Words W ws → fromCompressed ⟨W, S, P, P⟩ ws = some x → ReachableAny Sym W S P x
+  | fromRemainders {P : Nat} {ws : List Nat} {x : Coder} :
+      PrecOk W S P → Words W ws → fromRemainders ⟨W, S, P, P⟩ ws = some x → ReachableAny Sym W S P x
+  | decode {P B : Nat} {m : Model Sym} {x y : Coder} {s : Sym} :
+      ReachableAny Sym W S P x → decode ⟨W, S, P, B⟩ m x = .ok (s, y) → ReachableAny Sym W S P y
+  | encode {P B : Nat} {m : Model Sym} {x y : Coder} {s : Sym} :
+      ReachableAny Sym W S P x → B ≤ W → encode ⟨W, S, P, B⟩ m s x = .ok y →
+      ReachableAny Sym W S P y
+  | changePrecision {P q : Nat} {x y : Coder} :
+      ReachableAny Sym W S P x → PrecOk W S q →
+      changePrecision ⟨W, S, P, P⟩ q x = .ok y → ReachableAny Sym W S q y
+  | seek {P : Nat} {x x' : Coder} :
+      ReachableAny Sym W S P x → ReachableAny Sym W S P x' →
+      ReachableAny Sym W S P (seek x (pos x')).1
+
+theorem reachableAny_winv {W S P : Nat} {x : Coder} (h : ReachableAny Sym W S P x) (B : Nat) :
+    PrecOk W S P ∧ WInv ⟨W, S, P, B⟩ x := by
+  induction h with
+  | fromBinary hP hw h => exact ⟨hP, (fromBinary_spec (c := ⟨W, S, _, _⟩) hP hw h).1.winv⟩
+  | fromCompressed hP hw h => exact ⟨hP, (fromCompressed_spec (c := ⟨W, S, _, _⟩) hP hw h).1.winv⟩
+  | fromRemainders hP hw h => exact ⟨hP, (fromRemainders_inv (c := ⟨W, S, _, _⟩) hP hw h).1.winv⟩
+  | decode _ hd ih =>
+    rename_i P' B' m' x' y' s' _
+    exact ⟨ih.1, decode_winv (c := ⟨W, S, P', B'⟩) ih.1 ih.2 hd⟩
+  | encode _ hB he ih =>
+    rename_i P' B' m' x' y' s' _
+    exact ⟨ih.1, encode_winv (c := ⟨W, S, P', B'⟩) ih.1 hB ih.2 he⟩
+  | changePrecision _ hq hcp ih =>
+    rename_i P' q' x' y' _
+    have hI : WInv ⟨W, S, P', P'⟩ x' := ih.2
+    exact ⟨hq, changePrecision_winv hI hcp⟩
+  | seek _ _ ih ih' => exact ⟨ih.1, seek_winv ih.2 ih'.2⟩
+
+/-- **`ub_sites_unreachable`, lifted to histories with arbitrary models**: whatever sequence of
+    constructor / decode / encode / `change_precision` / `seek` calls produced the coder, and
+    whatever models and symbols were passed along the way, the next `decode_symbol` /
+    `encode_symbol` – again with any model, any symbol – does not reach a `new_unchecked(0)`. -/
+theorem history_no_ub {W S P : Nat} {x : Coder} (h : ReachableAny Sym W S P x) (B : Nat)
+    (m : Model Sym) (site : String) :
+    decode ⟨W, S, P, B⟩ m x ≠ .error (.fault (.ub site)) ∧
+    ∀ s, encode ⟨W, S, P, B⟩ m s x ≠ .error (.fault (.ub site)) := by
+  obtain ⟨hP, h1, h2, _⟩ := reachableAny_winv h B
+  exact ub_sites_unreachable (c := ⟨W, S, P, B⟩) hP m x h1 h2 site
 
 /-! ## non-vacuity -/
 
@@ -176,6 +248,11 @@ example : PrecOk exCfg.W exCfg.S exCfg.P ∧
   revert this
   decide
 
+/-- `ReachableAny` is inhabited, e.g. by a `seek` between two freshly constructed coders -/
+example : ∃ x, ReachableAny Nat 8 16 3 x := by
+  obtain ⟨x0, _, _, _, h0, _⟩ := exRun_binary
+  exact ⟨_, .seek (.fromBinary (by decide) exData_words h0) (.fromBinary (by decide) exData_words h0)⟩
+
 end CV.Chain.C20
 
 #print axioms CV.Chain.C20.ub_sites_unreachable
@@ -183,3 +260,6 @@ end CV.Chain.C20
 #print axioms CV.Chain.C20.api_no_fault
 #print axioms CV.Chain.C20.reachable_inv
 #print axioms CV.Chain.C20.reachable_no_fault
+#print axioms CV.Chain.C20.winv_preserved
+#print axioms CV.Chain.C20.reachableAny_winv
+#print axioms CV.Chain.C20.history_no_ub
